@@ -35,6 +35,29 @@ CHECKS = {
              'Tie and monitors (look-ahead at every pull, concurrent calls) as for C01.',
         note=E1 + 'the pool\'s own concurrency limit is an assumption about the stdlib executor (start guard of the model).',
         ref='§5 C08', engine='E1-detsched+lean'),
+    'C18': dict(
+        technique='Lean 4 proof (byte-level round-trip theorems for the record framing and the Connection framing; inductive '
+                  'invariants, progress and a decreasing measure over LTS models of the client/server multiplexing and of the '
+                  'two crossed FIFOs) + byte-exact differential runs and event-trace replay of the real code through the models',
+        text='Frame: C18_frame_first / _roundtrip / _truncated — read_record returns exactly what write_record wrote (id, encoder, '
+             'payload bytes) for arbitrary payload bytes and any number of records, and a cut stream never yields a phantom record. '
+             'Mux: C18_mux_own_response / _at_most_once / _ids_distinct / _no_unmatched / _progress / _terminates / _all_answered, '
+             'C18_stream_order / _stream_complete — for every interleaving of client senders/receivers, server receivers/responders '
+             'and handler completions over any number of connections and requesters, every future is set once, with the handler\'s '
+             'response or exception to its own payload; nothing is lost; stream() preserves input order; the id-minting rule gives '
+             'distinct live ids. Pipe: C18_pipe_fifo / _no_loss — each endpoint receives exactly what its peer sent, in order, for '
+             'every interleaving and chunking of writes. Tie on every run: real write_record/read_record through an asyncio '
+             'StreamReader under many chunkings vs the model byte-exactly; real unix-socket SocketServer+SocketClient (1-4 connections, '
+             '1-16 requesters, stream(), payloads to multi-MB, generated latencies/failures) with the complete event trace replayed '
+             'through Mux.step; real pipe.Server/Client traces replayed through Pipe.step; monitors evaluate the property on each run.',
+        note='Lean 4 kernel + axioms {propext, Classical.choice, Quot.sound}; hand-written models tied to /repo by differential runs / '
+             'trace replay on the cases generated per run (sampled); E4 (sockets, processes, FIFOs): OS schedule sampled, the '
+             'quantifier over interleavings is carried by the theorems; modelled not verified: StreamReader readuntil/readexactly, '
+             'pickle round trip, FIFO order of queues/sockets/FIFOs, dict, Future, CPython id() distinctness among live objects, '
+             'multiprocessing.Connection framing (compared byte-exactly on samples). Assumed: the client registers a request id before '
+             'its receiver processes the response to it (suspected window F17; monitored on every run, never exhibited; '
+             'Legacy/MuxWindow.lean shows what would fail); pipe endpoints stay open while messages are in transit.',
+        ref='§5 C18', engine='E3-differential+E4-processes+lean'),
 }
 
 NOT_YET = 'check not built yet in this round (model and tie planned in DESIGN.md §5); not claimed'
